@@ -83,11 +83,28 @@ theorem incExec_nframe (ns : List Node) (q : ScqId) (p : List Nat) (k : WKey) (n
     NFrame [] ns (incExec ns q p k now) :=
   NFrame.of_keys (updPath_keys _ _ _ _ (fun _ => ⟨rfl, rfl⟩))
 
+theorem refreshUp_nframe (pr : Nat → Int) (ns : List Node) (q : ScqId) (p : List Nat) : NFrame [] ns (refreshUp pr ns q p) :=
+  NFrame.of_keys (refreshUp_keys pr ns q p)
+
+theorem incExecR_nframe (lg : Bool) (pr : Nat → Int) (ns : List Node) (q : ScqId) (p : List Nat) (k : WKey) (now : Nat) :
+    NFrame [] ns (incExecR lg pr ns q p k now) := by
+  unfold incExecR
+  split
+  · exact incExec_nframe ns q p k now
+  · exact NFrame.trans0 (incExec_nframe ns q p k now) (refreshUp_nframe pr _ q p)
+
 theorem decExec_nframe (ns : List Node) (q : ScqId) (p : List Nat) (k : WKey) (now : Nat) :
     NFrame [] ns (decExec ns q p k now) := by
   unfold decExec
   refine NFrame.trans0 (NFrame.of_keys ?_) (pruneP_nframe _ q p)
   exact updPath_keys ns q p _ (fun _ => ⟨rfl, rfl⟩)
+
+theorem decExecR_nframe (lg : Bool) (pr : Nat → Int) (ns : List Node) (q : ScqId) (p : List Nat) (k : WKey) (now : Nat) :
+    NFrame [] ns (decExecR lg pr ns q p k now) := by
+  unfold decExecR
+  split
+  · exact decExec_nframe ns q p k now
+  · exact NFrame.trans0 (decExec_nframe ns q p k now) (refreshUp_nframe pr _ q p)
 
 theorem setLastN_nframe (ns : List Node) (q : ScqId) (p : List Nat) : NFrame [] ns (setLastN ns q p) :=
   NFrame.of_keys (updPath_keys _ _ _ _ (fun _ => ⟨rfl, rfl⟩))
@@ -192,10 +209,10 @@ theorem getOrCreate_nframe (ns : List Node) (q : ScqId) (p : List Nat) (now : Na
 /-! ### the tree-only updates of the state -/
 
 theorem incOps_nframe (ts : TState) (t : Task) (k : WKey) : NFrame [] ts.nodes (ts.incOps t k).nodes :=
-  foldl_nframe [] _ (fun ns o => incExec_nframe ns t.scq (ts.invOf o) k ts.s.now) t.ops ts.nodes
+  foldl_nframe [] _ (fun ns o => incExecR_nframe ts.legacyPrio ts.prioOf ns t.scq (ts.invOf o) k ts.s.now) t.ops ts.nodes
 
 theorem decOps_nframe (ts : TState) (t : Task) (k : WKey) : NFrame [] ts.nodes (ts.decOps t k).nodes :=
-  foldl_nframe [] _ (fun ns o => decExec_nframe ns t.scq (ts.invOf o) k ts.s.now) t.ops ts.nodes
+  foldl_nframe [] _ (fun ns o => decExecR_nframe ts.legacyPrio ts.prioOf ns t.scq (ts.invOf o) k ts.s.now) t.ops ts.nodes
 
 theorem enqOps_nframe (ts : TState) (t : Task) : NFrame [] ts.nodes (ts.enqOps t).nodes :=
   foldl_nframe [] _ (fun ns o => enqueueOp_nframe ts.prioOf ns t.scq (ts.invOf o) o) t.ops ts.nodes
@@ -251,7 +268,7 @@ theorem removeOpTree_nframe (ts : TState) (t : Task) (o : Nat) : NFrame [] ts.no
   unfold TState.removeOpTree
   split
   · exact NFrame.refl _
-  · exact decExec_nframe _ _ _ _ _
+  · exact decExecR_nframe _ _ _ _ _ _ _
   · exact (removeQueuedOp_nframe _ _ _ _ _).trans0
       (pruneChain_nframe _ _ _ (fun pi hpi => (mem_ups.mp hpi).2))
 
